@@ -364,6 +364,31 @@ func replayUnq(args map[string]string) error {
 		} else if err == nil && !sameInts(runesOf(sv), cps) {
 			bad("Unmarshal", "meaning", runesOf(sv))
 		}
+		// the same literal continued by a long plain tail, so that it spans refills of a streaming
+		// decoder's buffer: as a value and as a member name, over readers of several chunk sizes
+		if strict && len(lit) >= 2 {
+			tail := strings.Repeat("z", 70)
+			long := append(append(append([]byte{}, lit[:len(lit)-1]...), tail...), '"')
+			want := append(append([]int{}, cps...), runesOf(tail)...)
+			for _, chunk := range []int{1, 7, 64} {
+				evals.Add(2)
+				var lv string
+				if err := jsonv2.UnmarshalRead(&scriptedReader{data: long, chunks: []int{chunk}}, &lv); err != nil || !sameInts(runesOf(lv), want) {
+					bad(fmt.Sprintf("UnmarshalRead-long-%d", chunk), "meaning", runesOf(lv))
+				}
+				mv := map[string]int{}
+				obj := append(append([]byte("{"), long...), ":0}"...)
+				if err := jsonv2.UnmarshalRead(&scriptedReader{data: obj, chunks: []int{chunk}}, &mv); err != nil || len(mv) != 1 {
+					bad(fmt.Sprintf("UnmarshalRead-long-name-%d", chunk), "error", fmt.Sprint(err))
+				} else {
+					for k := range mv {
+						if !sameInts(runesOf(k), want) {
+							bad(fmt.Sprintf("UnmarshalRead-long-name-%d", chunk), "meaning", runesOf(k))
+						}
+					}
+				}
+			}
+		}
 	})
 	if err != nil {
 		return err
